@@ -1,71 +1,6 @@
 import DuneVerif.Proofs.C20Basic
-/-! what single bound operations do to the store (unfolding `step` once per operation) -/
+/-! what single bound operations do to the store: register files, effects, `step` unfolded once per operation -/
 namespace DV.C20
-
-theorem step_get (kd : Kind) (hk : kd.isVec = true) (s : State) (x b : Nat) (i : Int)
-    (hx : s.xs x = some b) (hi : okIdx i = true) :
-    step kd s (.get x i) =
-      (s, match getItem (s.read b) i with | .error e => e.show | .ok v => toString v) := by
-  simp only [step, hk, hx, hi]
-  cases getItem (s.read b) i <;> simp
-
-theorem step_set (kd : Kind) (hk : kd.isVec = true) (s : State) (x b : Nat) (i k : Int)
-    (hx : s.xs x = some b) (hi : okIdx i = true) (hkk : okInt k = true) :
-    step kd s (.set x i k) =
-      (match setItem (s.read b) i k with
-       | .error e => (s, e.show)
-       | .ok v => (s.write b v, showInts v)) := by
-  simp only [step, hk, hx, hi, hkk]
-  cases setItem (s.read b) i k <;> simp
-
-theorem step_view (n : Nat) (s : State) (a x b : Nat) (hx : s.xs x = some b) :
-    step (.fv n) s (.view a x) = (s.bindA a (fullView b (s.read b).length), showInts (s.read b)) := by
-  simp [step, Kind.isVec, Kind.isFv, hx]
-
-theorem step_aget (kd : Kind) (hk : kd.isVec = true) (s : State) (a : Nat) (v : View) (i : Int)
-    (ha : s.arrs a = some v) (hi : okIdx i = true) :
-    step kd s (.aget a i) =
-      (s, match normIndex v.len i with
-          | none => Err.index.show
-          | some p => toString ((s.read v.blk).getD (v.pos p) 0)) := by
-  simp only [step, hk, ha, hi]
-  cases normIndex v.len i <;> simp
-
-theorem step_aset (kd : Kind) (hk : kd.isVec = true) (s : State) (a : Nat) (v : View) (i k : Int)
-    (ha : s.arrs a = some v) (hi : okIdx i = true) (hkk : okInt k = true) :
-    step kd s (.aset a i k) =
-      (match normIndex v.len i with
-       | none => (s, Err.index.show)
-       | some p =>
-         let s1 := s.write v.blk ((s.read v.blk).set (v.pos p) k)
-         (s1, showInts (s1.viewVals v))) := by
-  simp only [step, hk, ha, hi, hkk]
-  cases normIndex v.len i <;> simp
-
-theorem step_copy (n : Nat) (s : State) (x y b : Nat) (hy : s.xs y = some b) :
-    step (.fv n) s (.copy x y) = ((s.alloc (s.read b)).1.bindX x (s.alloc (s.read b)).2, showInts (s.read b)) := by
-  simp [step, Kind.isVec, Kind.isFv, hy]
-
-theorem step_mcopy (n : Nat) (s : State) (x y b : Nat) (hy : s.xs y = some b) :
-    step (.fv n) s (.mcopy x y) = ((s.alloc (s.read b)).1.bindX x (s.alloc (s.read b)).2, showInts (s.read b)) := by
-  simp [step, Kind.isVec, Kind.isFv, hy]
-
-theorem step_npcopy (kd : Kind) (hk : kd.isVec = true) (s : State) (a x b : Nat) (hx : s.xs x = some b) :
-    step kd s (.npcopy a x) =
-      ((s.alloc (s.read b)).1.bindA a (fullView (s.alloc (s.read b)).2 (s.read b).length), showInts (s.read b)) := by
-  simp [step, hk, hx]
-
-theorem step_alias (kd : Kind) (hk : kd.isVec = true) (s : State) (x y b : Nat) (hy : s.xs y = some b) :
-    step kd s (.alias x y) = (s.bindX x b, showInts (s.read b)) := by
-  simp [step, hk, hy]
-
-theorem step_inplaceV (kd : Kind) (hk : kd.isVec = true) (s : State) (isSub : Bool) (x y bx by_ : Nat)
-    (hx : s.xs x = some bx) (hy : s.xs y = some by_) (hl : (s.read bx).length = (s.read by_).length)
-    (hok : okVals (if isSub then vsub (s.read bx) (s.read by_) else vadd (s.read bx) (s.read by_)) = true) :
-    step kd s (.inplaceV isSub x y) =
-      (s.write bx (if isSub then vsub (s.read bx) (s.read by_) else vadd (s.read bx) (s.read by_)),
-       showInts (if isSub then vsub (s.read bx) (s.read by_) else vadd (s.read bx) (s.read by_))) := by
-  simp [step, hk, hx, hy, hl, hok]
 
 /-! register files -/
 
@@ -73,9 +8,12 @@ theorem bindA_xs (s : State) (a : Nat) (v : View) : (s.bindA a v).xs = s.xs := r
 theorem bindA_read (s : State) (a : Nat) (v : View) (b : Nat) : (s.bindA a v).read b = s.read b := rfl
 theorem bindA_arrs_same (s : State) (a : Nat) (v : View) : (s.bindA a v).arrs a = some v := by
   simp [State.bindA, upd]
+theorem bindA_arrs_other (s : State) (a c : Nat) (v : View) (h : c ≠ a) : (s.bindA a v).arrs c = s.arrs c := by
+  simp [State.bindA, upd, h]
 theorem bindA_blocks (s : State) (a : Nat) (v : View) : (s.bindA a v).blocks = s.blocks := rfl
 theorem bindX_read (s : State) (x b c : Nat) : (s.bindX x b).read c = s.read c := rfl
 theorem bindX_blocks (s : State) (x b : Nat) : (s.bindX x b).blocks = s.blocks := rfl
+theorem bindX_arrs (s : State) (x b : Nat) : (s.bindX x b).arrs = s.arrs := rfl
 theorem bindX_same (s : State) (x b : Nat) : (s.bindX x b).xs x = some b := by
   simp [State.bindX, upd]
 theorem bindX_other (s : State) (x y b : Nat) (h : y ≠ x) : (s.bindX x b).xs y = s.xs y := by
@@ -84,5 +22,122 @@ theorem write_xs (s : State) (b : Nat) (v : List Int) : (s.write b v).xs = s.xs 
 theorem write_arrs (s : State) (b : Nat) (v : List Int) : (s.write b v).arrs = s.arrs := rfl
 theorem alloc_xs (s : State) (v : List Int) : (s.alloc v).1.xs = s.xs := rfl
 theorem alloc_arrs (s : State) (v : List Int) : (s.alloc v).1.arrs = s.arrs := rfl
+
+theorem viewVals_congr (s s' : State) (v : View) (h : s'.read v.blk = s.read v.blk) : s'.viewVals v = s.viewVals v := by
+  unfold State.viewVals; rw [h]
+
+/-! `step` on a vector operation is the effect of the operation applied to the store -/
+
+theorem step_v (kd : Kind) (hk : kd.isVec = true) (s : State) (o : VOp) :
+    step kd s (.v o) = (vecEff kd s o).apply s := by
+  simp [step, hk]
+
+theorem vecEff_get (kd : Kind) (s : State) (x b : Nat) (i : Int) (hx : s.xs x = some b) :
+    vecEff kd s (.get false x i) =
+      (match getItem (s.read b) i with | .error e => Eff.obs e.show | .ok v => Eff.obs (toString v)) := by
+  simp only [vecEff, hx, Bool.false_and, Bool.false_eq_true, if_false]
+  cases getItem (s.read b) i <;> rfl
+
+theorem vecEff_set (kd : Kind) (s : State) (x b : Nat) (i k : Int) (hx : s.xs x = some b) (hkk : okInt k = true) :
+    vecEff kd s (.set false x i k) =
+      (match setItem (s.read b) i k with | .error e => Eff.obs e.show | .ok v => Eff.writeB b v) := by
+  simp only [vecEff, hx, hkk, Bool.not_true, Bool.false_and, Bool.false_eq_true, if_false]
+  cases setItem (s.read b) i k <;> rfl
+
+theorem step_get (kd : Kind) (hk : kd.isVec = true) (s : State) (x b : Nat) (i : Int) (hx : s.xs x = some b) :
+    step kd s (.v (.get false x i)) =
+      (s, match getItem (s.read b) i with | .error e => e.show | .ok v => toString v) := by
+  rw [step_v kd hk, vecEff_get kd s x b i hx]
+  cases getItem (s.read b) i <;> rfl
+
+theorem step_set (kd : Kind) (hk : kd.isVec = true) (s : State) (x b : Nat) (i k : Int)
+    (hx : s.xs x = some b) (hkk : okInt k = true) :
+    step kd s (.v (.set false x i k)) =
+      (match setItem (s.read b) i k with
+       | .error e => (s, e.show)
+       | .ok v => (s.write b v, showInts v)) := by
+  rw [step_v kd hk, vecEff_set kd s x b i k hx hkk]
+  cases setItem (s.read b) i k <;> rfl
+
+theorem step_view (n : Nat) (s : State) (a x b : Nat) (hx : s.xs x = some b) :
+    step (.fv n) s (.v (.view a x)) =
+      (s.bindA a (fullView b (s.read b).length), showInts (s.viewVals (fullView b (s.read b).length))) := by
+  simp [step, Kind.isVec, vecEff, Kind.isFv, hx, Eff.apply]
+
+theorem step_sl (n : Nat) (s : State) (a x b : Nat) (i j : Option Int) (st : Int) (hx : s.xs x = some b) (hst : st ≠ 0) :
+    step (.fv n) s (.v (.sl a x i j (some st))) =
+      (s.bindA a { blk := b, off := (sliceIdx (s.read b).length i j st).1, step := st,
+                   len := (sliceIdx (s.read b).length i j st).2 },
+       showInts (s.viewVals { blk := b, off := (sliceIdx (s.read b).length i j st).1, step := st,
+                              len := (sliceIdx (s.read b).length i j st).2 })) := by
+  simp [step, Kind.isVec, vecEff, Kind.isFv, hx, Eff.apply, hst]
+
+theorem step_aget (kd : Kind) (hk : kd.isVec = true) (s : State) (a : Nat) (v : View) (i : Int)
+    (ha : s.arrs a = some v) (hi : okIdx i = true) :
+    step kd s (.v (.aget a i)) =
+      (s, match normIndex v.len i with
+          | none => Err.index.show
+          | some p => toString ((s.read v.blk).getD (v.pos p) 0)) := by
+  rw [step_v kd hk]
+  simp only [vecEff, ha, hi]
+  cases normIndex v.len i <;> simp [Eff.apply]
+
+theorem step_aset (kd : Kind) (hk : kd.isVec = true) (s : State) (a : Nat) (v : View) (i k : Int)
+    (ha : s.arrs a = some v) (hi : okIdx i = true) (hkk : okInt k = true) :
+    step kd s (.v (.aset a i k)) =
+      (match normIndex v.len i with
+       | none => (s, Err.index.show)
+       | some p =>
+         (s.write v.blk ((s.read v.blk).set (v.pos p) k),
+          showInts ((s.write v.blk ((s.read v.blk).set (v.pos p) k)).viewVals v))) := by
+  rw [step_v kd hk]
+  simp only [vecEff, ha, hi, hkk]
+  cases normIndex v.len i <;> simp [Eff.apply]
+
+theorem step_copy (n : Nat) (s : State) (x y b : Nat) (hy : s.xs y = some b) :
+    step (.fv n) s (.v (.copy x y)) = ((s.alloc (s.read b)).1.bindX x (s.alloc (s.read b)).2, showInts (s.read b)) := by
+  simp [step, Kind.isVec, vecEff, Kind.isFv, hy, Eff.apply]
+
+theorem step_mcopy (n : Nat) (s : State) (x y b : Nat) (hy : s.xs y = some b) :
+    step (.fv n) s (.v (.mcopy x y)) = ((s.alloc (s.read b)).1.bindX x (s.alloc (s.read b)).2, showInts (s.read b)) := by
+  simp [step, Kind.isVec, vecEff, Kind.isFv, hy, Eff.apply]
+
+theorem step_npcopy (kd : Kind) (hk : kd.isVec = true) (s : State) (a x b : Nat) (hx : s.xs x = some b) :
+    step kd s (.v (.npcopy a x)) =
+      ((s.alloc (s.read b)).1.bindA a (fullView (s.alloc (s.read b)).2 (s.read b).length), showInts (s.read b)) := by
+  simp [step, hk, vecEff, hx, Eff.apply]
+
+theorem step_alist (kd : Kind) (hk : kd.isVec = true) (s : State) (a : Nat) (v : View) (ha : s.arrs a = some v) :
+    step kd s (.v (.alist a)) = (s, showInts (s.viewVals v)) := by
+  simp [step, hk, vecEff, ha, Eff.apply]
+
+theorem step_alias (kd : Kind) (hk : kd.isVec = true) (s : State) (x y b : Nat) (hy : s.xs y = some b) :
+    step kd s (.v (.alias x y)) = (s.bindX x b, showInts (s.read b)) := by
+  simp [step, hk, vecEff, hy, Eff.apply]
+
+theorem step_inplaceV (kd : Kind) (hk : kd.isVec = true) (s : State) (isSub : Bool) (x y bx by_ : Nat)
+    (hx : s.xs x = some bx) (hy : s.xs y = some by_) (hl : (s.read bx).length = (s.read by_).length)
+    (hok : okVals (if isSub then vsub (s.read bx) (s.read by_) else vadd (s.read bx) (s.read by_)) = true) :
+    step kd s (.v (.inplaceV isSub x y)) =
+      (s.write bx (if isSub then vsub (s.read bx) (s.read by_) else vadd (s.read bx) (s.read by_)),
+       showInts (if isSub then vsub (s.read bx) (s.read by_) else vadd (s.read bx) (s.read by_))) := by
+  simp [step, hk, vecEff, hx, hy, hl, effWrite, hok, Eff.apply]
+
+/-- `nscale`: `x *= k` on a NumPy-backed C++ vector writes the scaled values through the view -/
+theorem step_nscale (kd : Kind) (hk : kd.isVec = true) (s : State) (a : Nat) (v : View) (k : Int)
+    (ha : s.arrs a = some v) (hkk : okInt k = true) (hok : okVals (vscale k (s.viewVals v)) = true) :
+    step kd s (.v (.nscale a k)) =
+      (s.viewWrite v (vscale k (s.viewVals v)), showInts ((s.viewWrite v (vscale k (s.viewVals v))).viewVals v)) := by
+  simp [step, hk, vecEff, ha, hkk, hok, Eff.apply]
+
+/-- `nset`: `x[i] = k` on a NumPy-backed C++ vector -/
+theorem step_nset (kd : Kind) (hk : kd.isVec = true) (s : State) (a : Nat) (v : View) (p : Nat) (k : Int)
+    (ha : s.arrs a = some v) (hkk : okInt k = true) (hp : p < v.len) :
+    step kd s (.v (.nset a (p : Int) k)) =
+      (s.write v.blk ((s.read v.blk).set (v.pos p) k),
+       showInts ((s.write v.blk ((s.read v.blk).set (v.pos p) k)).viewVals v)) := by
+  have h1 : ¬ ((p : Int) < 0) := by omega
+  have h2 : ¬ ((p : Int) ≥ (v.len : Int)) := by omega
+  simp [step, hk, vecEff, ha, hkk, h1, h2, Eff.apply]
 
 end DV.C20
